@@ -33,21 +33,42 @@ ASSUMPTIONS = [
     "soup cases that raise TemplateSyntaxError are counted but not judged (C01 owns totality)",
     "lstrip_blocks before a tag preceded on its line by whitespace other than spaces/tabs is not judged (configuration skipped, counted)",
     "environments are reused across cases inside a worker (configuration objects only)",
+    "each of a case's 8 configurations is realised by one creation route (fresh Environment / overlay of a used default environment / "
+    "overlay of a used same-delimiter environment), rotating with a hash of the source",
 ]
 
 CONFIGS = [(t, l, k) for t in (False, True) for l in (False, True) for k in (False, True)]
 _envs = {}
 
 
-def get_env(syn_name, ls, lc, trim, lstrip, nls, ktn):
-    key = (syn_name, ls, lc, trim, lstrip, nls, ktn)
+ROUTES = ["fresh", "overlay", "overlay-ws"]
+
+
+def get_env(syn_name, ls, lc, trim, lstrip, nls, ktn, route="fresh"):
+    """The configuration is realised by one of three creation routes (the property quantifies over configurations however
+    they were created): 'fresh' = Environment(**options); 'overlay' = overlay(**all options) of a default environment that
+    has already lexed and rendered; 'overlay-ws' = overlay(whitespace options) of a used environment with the same delimiters."""
+    key = (syn_name, ls, lc, trim, lstrip, nls, ktn, route)
     env = _envs.get(key)
     if env is None:
         from jinja2 import Environment
 
-        env = _envs[key] = Environment(trim_blocks=trim, lstrip_blocks=lstrip, newline_sequence=nls, keep_trailing_newline=ktn,
-                                       **skel.env_kwargs(skel.syntax(syn_name, ls, lc)))
+        kw = skel.env_kwargs(skel.syntax(syn_name, ls, lc))
+        wsopts = dict(trim_blocks=trim, lstrip_blocks=lstrip, newline_sequence=nls, keep_trailing_newline=ktn)
+        if route == "fresh":
+            env = Environment(**wsopts, **kw)
+        else:
+            base = Environment() if route == "overlay" else Environment(**kw)
+            warm = [tuple(t) for t in base.lex("warm\n  up\n")]
+            if warm != [(1, "data", "warm\n  up")] or base.from_string("warm\n").render() != "warm":
+                raise core.Violation("a default-option environment does not lex/render plain text: %r" % (warm,))
+            env = base.overlay(**wsopts, **kw) if route == "overlay" else base.overlay(**wsopts)
+        _envs[key] = env
     return env
+
+
+def _route(src, j):
+    return ROUTES[(sum(map(ord, src)) + len(src) + j) % len(ROUTES)]
 
 
 def _check_linenos(placed, S, src, cfg):
@@ -74,7 +95,9 @@ def _structured(case, csk, syn_name, ls, lc):
         if a.ambiguous:
             labels.add("lstrip:ambiguous-ws(config skipped)")
             continue
-        tokens = [tuple(t) for t in get_env(syn_name, ls, lc, trim, lstrip, nls, ktn).lex(src)]
+        route = _route(src, CONFIGS.index((trim, lstrip, ktn)))
+        cfg += " environment=" + route
+        tokens = [tuple(t) for t in get_env(syn_name, ls, lc, trim, lstrip, nls, ktn, route).lex(src)]
         placed, err = ws.walk_tokens(a.S, a.spans, tokens)
         if placed is None:
             raise core.Violation("token stream is not the source minus the whitespace the model removes: %s\n source: %r\n config: %s\n removed spans: %r\n tokens: %r"
@@ -113,8 +136,10 @@ def _soup(case):
         if not ktn and S.endswith("\n"):
             S = S[:-1]
         cfg = "trim_blocks=%s lstrip_blocks=%s keep_trailing_newline=%s syntax=%s ls=%r lc=%r" % (trim, lstrip, ktn, syn_name, ls, lc)
+        route = _route(src, CONFIGS.index((trim, lstrip, ktn)))
+        cfg += " environment=" + route
         try:
-            tokens = [tuple(t) for t in get_env(syn_name, ls, lc, trim, lstrip, nls, ktn).lex(src)]
+            tokens = [tuple(t) for t in get_env(syn_name, ls, lc, trim, lstrip, nls, ktn, route).lex(src)]
         except TemplateSyntaxError:
             labels.add("soup:syntax-error")
             continue
@@ -162,7 +187,7 @@ def check_case(case):
     raise core.HarnessError("unknown case kind %r" % kind)
 
 
-SHARD_SYN = [("default", None, None)] * 3 + [("blockbr", None, None), ("parens", None, None), ("latex", "#", "##")] + [
+SHARD_SYN = [("default", None, None)] * 2 + [("prefixvar", None, None)] + [("blockbr", None, None), ("parens", None, None), ("latex", "#", "##")] + [
     ("php", None, None), ("erb", None, None), ("brackets", None, None), ("three", None, None), ("ops", None, None),
     ("default", "#", "##"), ("erb", "%%", "##"), ("php", ">>>", "##"), ("brackets", "#", None), ("default", "%%", "##"),
 ]
